@@ -16,13 +16,15 @@ TECHNIQUE = ("deterministic simulation with fault enumeration: seeded operation 
              "finalization oracle incl. garbage collection as a recorded operation")
 LEVEL_TEXT = ("Each sampled history (str, render, draw still/animated fitting or too big, "
               "iterators via __iter__/constructor/_from_render_data_ with and without ownership, "
-              "_init_render_ with caller-kept data, next, seek, close twice, finalize twice, drop "
+              "_init_render_ with caller-kept data, next (single and in runs across loop "
+              "boundaries), seek, set_render_size/args/duration, close twice, finalize twice, drop "
               "reference + collect) is run fault-free and then once per (k-th render, exception "
               "type) for EVERY k and once per interrupted draw write. The instrumented renderable "
               "stamps a token into every RenderData it creates and counts finalizations per "
               "token: a completed operation / exhausted / closed / failed iterator must have "
               "count 1 at that moment, caller-owned data 0 until its owner finalizes it, nothing "
-              "is rendered with finalized data, and at the end of the history (all references "
+              "is rendered with finalized data, the data of an iterator that is still open has "
+              "count 0, and at the end of the history (all references "
               "dropped and collected) every token has count exactly 1. Exhaustive over render "
               "indices per history; histories are sampled.")
 LEVEL_NOTE = ("Trusted: SimRenderable's token bookkeeping (harness), CPython reference counting "
@@ -35,13 +37,14 @@ TIERS = {
 }
 EXHAUSTIVE_INNER = True
 RULE = ("history = <= max_ops seeded operations over up to 3 renderables and 3 live iterators; "
-        "faults = every k-th _render_ call x {RuntimeError, StopIteration} and every draw write "
+        "faults = every k-th _render_ call x {RuntimeError, StopIteration, KeyboardInterrupt} and every draw write "
         "x KeyboardInterrupt; non-trivial = the history contains a fault, an early close or a "
         "dropped reference; distinct = hash of (history, fault)")
 PROBES = ["reentrant_close_during_render", "render_fault_in_first_animation_frame", "size_validation_failed_in_draw",
           "close_during_dummy_frame_state", "caller_owned_data_left_unfinalized",
           "finalized_by_garbage_collection", "stopiteration_from_definite_source",
-          "double_close", "double_finalize", "interrupted_draw_write", "iterator_exhausted"]
+          "double_close", "double_finalize", "interrupted_draw_write", "iterator_exhausted",
+          "setting_changed_mid_iteration", "keyboardinterrupt_in_render"]
 COMPONENTS = {
     "real": ["RenderData.finalize/__del__", "Renderable._init_render_/draw/render/__str__/"
              "__iter__/_animate_", "RenderIterator (__init__, _from_render_data_, __next__, "
@@ -60,6 +63,7 @@ class Live:
         self.owns = owns
         self.closed = False
         self.started = False
+        self.interrupted = False   # a KeyboardInterrupt left next(): generator dead, not "closed"
         self.desc = desc
 
 
@@ -151,8 +155,8 @@ def run(ch, ctx, fault=None):
             op = ch.weighted("op", [
                 (2, "str"), (2, "render"), (3, "draw"), (3, "iter"), (2, "from_data"),
                 (1, "init_render_keep"), (2, "init_render_final"), (1, "from_finalized"),
-                (8, "next"), (1, "next_reentrant_close"), (2, "seek"), (2, "close"), (1, "finalize"),
-                (2, "drop"), (1, "collect"),
+                (6, "next"), (4, "next_many"), (1, "next_reentrant_close"), (3, "seek"),
+                (3, "set"), (2, "close"), (1, "finalize"), (2, "drop"), (1, "collect"),
             ])
             t0 = hooks.next_token
             op_state["op"] = op
@@ -273,9 +277,73 @@ def run(ch, ctx, fault=None):
                         lv.closed = True
                         desc += " -> StopIteration"
                         iterator_closed_checks(lv, "next.exhausted")
+                    except KeyboardInterrupt:
+                        lv.interrupted = True
+                        raise
                     except BaseException:
                         lv.closed = True
                         raise
+                elif op == "next_many":
+                    # runs of next() carry a cached iterator across a loop boundary
+                    cands = [x for x in live if not x.closed]
+                    if not cands:
+                        continue
+                    lv = ch.pick("live", cands)
+                    cands = None
+                    n_next = ch.int("n_next", 2, 7)
+                    desc = "next(%s) x %d" % (lv.desc, n_next)
+                    site = "next"
+                    for _ in range(n_next):
+                        try:
+                            next(lv.it)
+                            lv.started = True
+                        except StopIteration:
+                            ctx.probe("iterator_exhausted")
+                            lv.closed = True
+                            desc += " -> StopIteration"
+                            iterator_closed_checks(lv, "next.exhausted")
+                            break
+                        except KeyboardInterrupt:
+                            lv.interrupted = True
+                            raise
+                        except BaseException:
+                            lv.closed = True
+                            raise
+                        check(hooks.used_finalized == 0, "frame_rendered_with_finalized_data",
+                              {"op": desc, "fault": fault}, site)
+                        check(not lv.owns or counts(lv.token) == 0,
+                              "render_data_finalized_while_iterator_open",
+                              {"iterator": lv.desc, "count": counts(lv.token), "after": desc,
+                               "fault": fault}, site)
+                elif op == "set":
+                    # a settings change invalidates cached frames: later loops render again
+                    if not live:
+                        continue
+                    lv = ch.pick("live", live)
+                    what = ch.pick("setting", ("size", "args", "duration"))
+                    if what == "size":
+                        val = ti.geometry.Size(ch.int("sw", 1, 3), ch.int("sh", 1, 2))
+                        fn = lambda: lv.it.set_render_size(val)  # noqa: E731
+                    elif what == "args":
+                        val = ch.pick("char", ("#", "%", "@"))
+                        fn = lambda: lv.it.set_render_args(  # noqa: E731
+                            R.RenderArgs(SimR, SimR.SimArgs(val)))
+                    else:
+                        val = ch.int("sdur", 1, 30)
+                        fn = lambda: lv.it.set_frame_duration(val)  # noqa: E731
+                    desc = "%s.set_%s(%r)" % (lv.desc, what, val)
+                    try:
+                        fn()
+                        got = None
+                    except FinalizedIteratorError:
+                        got = "FinalizedIteratorError"
+                    finally:
+                        fn = None
+                    check(lv.interrupted or (got is not None) == lv.closed,
+                          "control_op_outcome_vs_closed_state",
+                          {"iterator": lv.desc, "op": desc, "got": got, "closed": lv.closed}, "set")
+                    if not lv.closed and lv.started:
+                        ctx.probe("setting_changed_mid_iteration")
                 elif op == "next_reentrant_close":
                     # close() arriving while a frame is being rendered (re-entrantly, or from
                     # another thread): the generator is executing, the close cannot take
@@ -300,6 +368,9 @@ def run(ch, ctx, fault=None):
                         lv.started = True
                     except StopIteration:
                         lv.closed = True
+                    except KeyboardInterrupt:
+                        lv.interrupted = True
+                        raise
                     except BaseException:
                         lv.closed = True
                         raise
@@ -315,13 +386,18 @@ def run(ch, ctx, fault=None):
                     if not live:
                         continue
                     lv = ch.pick("live", live)
-                    desc = "%s.seek(0)" % lv.desc
+                    off = ch.pick("seek_off", (0, 0, 1, 2, 3))
+                    desc = "%s.seek(%d)" % (lv.desc, off)
                     try:
-                        lv.it.seek(0)
+                        lv.it.seek(off)
                         got = None
                     except FinalizedIteratorError:
                         got = "FinalizedIteratorError"
-                    check((got is not None) == lv.closed, "seek_outcome_vs_closed_state",
+                    except ValueError:
+                        got = None if not lv.closed else "ValueError"   # out of range: rejected
+                        desc += " -> ValueError"
+                    check(lv.interrupted or (got is not None) == lv.closed,
+                          "seek_outcome_vs_closed_state",
                           {"iterator": lv.desc, "got": got, "closed": lv.closed}, "seek")
                 elif op == "close":
                     if not live:
@@ -402,12 +478,16 @@ def run(ch, ctx, fault=None):
                                     {"op": desc, "exc": repr(exc)}, site)
                 else:
                     ctx.nontrivial = True
-                    if fault["kind"] == "render":
+                    if fault["kind"] == "render" and fault["exc"] == "KeyboardInterrupt":
+                        ctx.probe("keyboardinterrupt_in_render")
+                    elif fault["kind"] == "render":
                         if fault["exc"] == "StopIteration":
                             ctx.probe("stopiteration_from_definite_source")
                     else:
                         ctx.probe("interrupted_draw_write")
-                if op == "next":
+                if op in ("next", "next_many") and isinstance(exc, Exception):
+                    # (an interrupt is not "an error": the iterator only has to end up
+                    # finalized exactly once, which the end-of-history count decides)
                     iterator_closed_checks(lv, "next.error")
                 del exc
             else:
@@ -420,6 +500,14 @@ def run(ch, ctx, fault=None):
             for tok in expect0:
                 check(counts(tok) == 0, "caller_owned_render_data_finalized",
                       {"token": tok, "count": counts(tok), "after": desc}, site)
+            # "finalized exactly once - WHEN the iterator is exhausted, closed, collected or
+            # fails": never while it is still open
+            for lv_ in live:
+                if lv_.owns and not lv_.closed:
+                    check(counts(lv_.token) == 0, "render_data_finalized_while_iterator_open",
+                          {"iterator": lv_.desc, "count": counts(lv_.token), "after": desc,
+                           "fault": fault}, site)
+            lv_ = None
         # end of history: release everything, collect, count
         ctx.extra["renders"] = k.counts.get("render", 0)
         ctx.extra["writes"] = k.counts.get("out.write", 0)
@@ -443,6 +531,7 @@ def faults(ctx, ch):
     for kk in range(1, ctx.extra.get("renders", 0) + 1):
         out.append({"kind": "render", "k": kk, "when": "before", "exc": "RuntimeError"})
         out.append({"kind": "render", "k": kk, "when": "before", "exc": "StopIteration"})
+        out.append({"kind": "render", "k": kk, "when": "before", "exc": "KeyboardInterrupt"})
     for kk in range(1, ctx.extra.get("writes", 0) + 1):
         out.append({"kind": "out.write", "k": kk, "when": "before", "exc": "KeyboardInterrupt"})
     return out
